@@ -15,7 +15,7 @@
 #include "vf_walk.h"
 
 #define VF_L CBOR_MAX_STACK_SIZE
-enum { K_SCEN = VC_USER, K_LOAD, K_COPY, K_SALLOC, K_BUILD, K_GROW, K_SINGLE, K_FAILSTOP, K_PAIR, K_REPORTED, K_ABSORBED, K_MAXN };
+enum { K_SCEN = VC_USER, K_LOAD, K_COPY, K_SALLOC, K_BUILD, K_GROW, K_SINGLE, K_FAILSTOP, K_PAIR, K_REPORTED, K_ABSORBED, K_MAXN, K_DEEP };
 enum { SC_LOAD = 1, SC_COPY, SC_SALLOC, SC_BUILDER, SC_GROW };
 
 static unsigned dfs_k, cdepth = 2;
@@ -143,7 +143,7 @@ static void grow_teardown(void) {
 
 /* ------------------------------------------------------------------ run one scenario under one schedule */
 static void describe(const struct scen* s, const struct sched* sc) {
-  uint8_t d[8 + 24 + 256];
+  uint8_t d[8 + 24 + 4200];
   size_t o = 0;
   uint32_t k32 = (uint32_t)s->kind, w = (uint32_t)s->which, st = (uint32_t)s->step, md = (uint32_t)sc->mode;
   memcpy(d + o, &k32, 4); o += 4;
@@ -152,8 +152,8 @@ static void describe(const struct scen* s, const struct sched* sc) {
   memcpy(d + o, &md, 4); o += 4;
   memcpy(d + o, &sc->k, 8); o += 8;
   memcpy(d + o, &sc->k2, 8); o += 8;
-  if (s->kind == SC_LOAD) { size_t n = s->n > 200 ? 200 : s->n; memcpy(d + o, s->in, n); o += n; }
-  if (s->kind == SC_COPY || s->kind == SC_SALLOC) { d[o++] = (uint8_t)s->origin_ctree; size_t n = s->origin_len > 200 ? 200 : s->origin_len; memcpy(d + o, s->origin, n); o += n; }
+  if (s->kind == SC_LOAD) { size_t n = s->n > 4096 ? 4096 : s->n; memcpy(d + o, s->in, n); o += n; }
+  if (s->kind == SC_COPY || s->kind == SC_SALLOC) { d[o++] = (uint8_t)s->origin_ctree; size_t n = s->origin_len > 4096 ? 4096 : s->origin_len; memcpy(d + o, s->origin, n); o += n; }
   vf_case(s->kind == SC_LOAD ? "fault-load" : s->kind == SC_COPY ? "fault-copy" : s->kind == SC_SALLOC ? "fault-salloc" : s->kind == SC_BUILDER ? "fault-builder" : "fault-grow", d, o);
 }
 
@@ -384,6 +384,41 @@ static void constructed_unit(uint64_t u) {
     t = vt_build(&ch, (int)cdepth);
   }
 }
+/* deep nesting: 255 / 256 / 257 / 300 open containers (one more than an 8-bit counter holds) of each kind, every single-refusal and
+ * fail-stop schedule of the load, of the copy and of serialize_alloc of the decoded tree */
+static void deep_unit(uint64_t u) {
+  static const unsigned DEPTH[] = {255, 256, 257, 300};
+  unsigned depth = DEPTH[u % 4], kind = (unsigned)(u / 4);
+  static uint8_t in[2048];
+  size_t n = 0;
+  for (unsigned i = 0; i < depth; i++) {
+    switch (kind) {
+      case 0: in[n++] = 0x81; break;
+      case 1: in[n++] = 0xc1; break;
+      case 2: in[n++] = 0x9f; break;
+      case 3: in[n++] = 0xa1; in[n++] = 0x00; break;
+      default: in[n++] = i % 3 == 0 ? 0x81 : i % 3 == 1 ? 0xd8 : 0xbf; if (i % 3 == 1) in[n++] = 0x18; if (i % 3 == 2) in[n++] = 0x00; break;
+    }
+  }
+  in[n++] = 0x00;
+  for (unsigned i = depth; i-- > 0;)
+    if (kind == 2 || (kind == 4 && i % 3 == 2)) in[n++] = 0xff;
+  struct scen L = {.kind = SC_LOAD, .in = in, .n = n};
+  vf_cnt(K_LOAD, 1);
+  vf_cnt(K_DEEP, 1);
+  all_schedules(&L, NULL);
+  va_reset();
+  struct cbor_load_result res;
+  uint8_t* g = vf_guard_put(in, n);
+  cbor_item_t* t = cbor_load(g, n, &res);
+  if (!t) vf_fail(NULL, "deep input (%u levels, kind %u) rejected without any refusal (code %d at %zu)", depth, kind, res.error.code, res.error.position);
+  else {
+    tree_scenarios(t, in, n, 0);
+    cbor_decref(&t);
+  }
+  if (va.live) va_release_all();
+}
+#define DEEP_UNITS 20
 static void misc_unit(void) {
   for (unsigned i = 0; i < NBUILDERS; i++) {
     struct scen s = {.kind = SC_BUILDER, .which = (int)i};
@@ -419,6 +454,7 @@ static void corpus_unit(uint64_t i) {
 static uint64_t dfs1_units;
 static void unit(uint64_t u) {
   va_cap = 1 << 20;
+  if (u >= dfs_units + con_units + misc_units + vf_corpus_count() + dfs1_units) { deep_unit(u - (dfs_units + con_units + misc_units + vf_corpus_count() + dfs1_units)); return; }
   if (u >= dfs_units + con_units + misc_units + vf_corpus_count()) { /* deeper, over the structural alphabet Sigma' */
     vf_dfs_unit(&VF_SIGMA1, vf_tier ? 6 : 5, u - (dfs_units + con_units + misc_units + vf_corpus_count()), VF_L, 64 * 1024, seq_cb, NULL);
     return;
@@ -430,7 +466,7 @@ static void unit(uint64_t u) {
   u -= con_units;
   if (u < misc_units) misc_unit();
 }
-static uint64_t units(void) { return dfs_units + con_units + misc_units + vf_corpus_count() + dfs1_units; }
+static uint64_t units(void) { return dfs_units + con_units + misc_units + vf_corpus_count() + dfs1_units + DEEP_UNITS; }
 static void init(void) {
   vf_enum_init();
   vf_corpus_init();
@@ -493,5 +529,5 @@ struct vf_check vf_the_check = {
     .counters = {[VC_EVAL] = "runs", [VC_DISTINCT] = "distinct_scenario_schedule_cells", [VC_TRANS] = "faulted_runs", [VC_TRACES] = "executed_on_implementation",
                  [K_SCEN] = "scenarios", [K_LOAD] = "load_scenarios", [K_COPY] = "copy_scenarios", [K_SALLOC] = "serialize_alloc_scenarios", [K_BUILD] = "builder_scenarios",
                  [K_GROW] = "growth_scenarios", [K_SINGLE] = "single_refusal_schedules", [K_FAILSTOP] = "fail_stop_schedules", [K_PAIR] = "pair_schedules",
-                 [K_REPORTED] = "runs_with_delivered_refusal", [K_ABSORBED] = "runs_where_schedule_was_not_reached", [K_MAXN] = "sum_over_workers_of_max_requests_per_scenario"},
+                 [K_REPORTED] = "runs_with_delivered_refusal", [K_ABSORBED] = "runs_where_schedule_was_not_reached", [K_MAXN] = "sum_over_workers_of_max_requests_per_scenario", [K_DEEP] = "deeply_nested_inputs"},
     .init = init, .units = units, .unit = unit, .replay = replay};
